@@ -21,6 +21,10 @@ structure S where
   profs : List (Nat × PCfg) := []
   /-- access settings as the backend sends them, per profile (`none`: no `access` message). -/
   wire : List (Nat × Option AccessSettings) := []
+  /-- fifth deepening: profiles the device finder knows (index, automatic devices enabled) and the devices with a
+  human-readable ID that exist. -/
+  fauto : List (Nat × Bool) := []
+  fdevs : List (Nat × String) := []
 
 def S.wireOf (s : S) (k : Nat) : Option AccessSettings := ((s.wire.find? (fun e => e.1 == k)).map (·.2)).getD none
 
@@ -171,6 +175,15 @@ def step (s : S) : List String → S × String
     let c := accessFromBackend (s.wireOf (nat! k))
     let c := if stage == "c" then confOfCache (cacheOfConf c) else c
     (s, showB (confBlocked c qname (nat! qt) { addr := { is4 := fam4 is4, val := nat! val }, zoned := famZoned is4 } (parseASN asn)))
+  | ["fprof", k, auto] => ({ s with fauto := s.fauto ++ [(nat! k, bool! auto)] }, "ok")
+  | ["freq", pk, hid, fails, is4, val, port, qname, qtype, qclass, asn, ecs] =>
+    let db : AutoDB := { profs := s.fauto.map (fun e => (e.1, e.2, some (s.prof e.1).acc)), devs := s.fdevs }
+    let key : ExtKey := { prof := if pk == "-" then none else some (nat! pk), hid := hid, backendFails := bool! fails }
+    let r : Req := { addr := { is4 := fam4 is4, val := nat! val }, zoned := famZoned is4, port := nat! port, qname := qname,
+                     qtype := nat! qtype, qclass := nat! qclass, asn := parseASN asn, ecsOk := ecs == "1",
+                     ecsBad := ecs == "2", dev := .none }
+    let o := wrapF s.global AutoDB.find db key r
+    ({ s with fdevs := o.1.devs }, o.2.why ++ " " ++ showEff o.2.effects ++ " " ++ showB o.2.err ++ " " ++ toString o.1.creates)
   | ["lrule", t] => (s, pts (lowerRuleL (unpts t)))
   | ["rxblk", t, h] => (s, showB (rxRuleBlocks (unpts t) (unpts h)))
   | ["ynet", is4, val, bits] =>
